@@ -618,6 +618,24 @@ class DFA:
         return DFA.positional(alpha, [frozenset([alpha.atom_of_char(c)]) for c in text])
 
     @staticmethod
+    def from_words(alpha, words):
+        """The finite language of ``words`` as a trie over the atoms (linear in the total length; a chain of unions is quadratic)."""
+        trans = [{}]
+        accept = set()
+        for w in words:
+            q = 0
+            for c in w:
+                a = alpha.atom_of_char(c)
+                nxt = trans[q].get(a)
+                if nxt is None:
+                    nxt = len(trans)
+                    trans.append({})
+                    trans[q][a] = nxt
+                q = nxt
+            accept.add(q)
+        return DFA(alpha, trans, 0, tuple(sorted(accept)))
+
+    @staticmethod
     def length_in(alpha, lengths, upto=None):
         """All strings whose length is in ``lengths`` (finite set)."""
         if not lengths:
